@@ -136,11 +136,42 @@ func dispHistCfgs(prop, tier string) []*histCfg {
 		}
 		// fault positions: every constructor, invocation 1..3, error / panic / nil
 		fd := depth - 2
+		// a dependency chain without aliases, so that the LAST entry of the build order is a real constructor
+		cspec := kit.Spec{Regs: []kit.Reg{
+			{ID: 0, Life: "singleton", Err: true, Outs: []kit.Out{{T: "D0"}}},
+			{ID: 1, Life: "singleton", Err: true, Outs: []kit.Out{{T: "D1"}}, Deps: []kit.Dep{{T: "D0"}}},
+			{ID: 2, Life: "transient", Err: true, Outs: []kit.Out{{T: "D3"}}, Deps: []kit.Dep{{T: "D0"}}},
+			{ID: 3, Life: "singleton", Err: true, Outs: []kit.Out{{T: "D2"}}, Deps: []kit.Dep{{T: "D1"}, {T: "D3"}}},
+			{ID: 4, Life: "scoped", Kind: "voiderr", Deps: []kit.Dep{{T: "D3"}}},
+			{ID: 5, Life: "scoped", Err: true, Outs: []kit.Out{{T: "D4"}}, Deps: []kit.Dep{{T: "D2"}}},
+		}}
+		// ... and the same chain alone: the last singleton is the last node of the whole build order
+		for _, reg := range []int{0, 1, 2, 3} {
+			out = append(out, &histCfg{Name: fmt.Sprintf("%s-hist/chain-only-fault-r%d#1-cancel-build", prop, reg), Spec: kit.Spec{Regs: cspec.Regs[:4]},
+				Faults: map[string]string{fmt.Sprintf("%d:1", reg): "cancel-build"}, Probes: []Op{{Kind: "get", T: "D2"}, {Kind: "get", T: "D3"}}, MaxScopes: 2, Depth: fd,
+				CtxKinds: []string{""}, Final: dispFinal, Oracle: dispOracle(prop)})
+		}
+		for _, reg := range []int{0, 1, 2, 3, 4} {
+			for _, kind := range []string{"cancel-build", "err", "panic:string"} {
+				out = append(out, &histCfg{Name: fmt.Sprintf("%s-hist/chain-fault-r%d#1-%s", prop, reg, kind), Spec: cspec,
+					Faults: map[string]string{fmt.Sprintf("%d:1", reg): kind}, Probes: []Op{{Kind: "get", T: "D4"}, {Kind: "get", T: "D3"}}, MaxScopes: 2, Depth: fd,
+					CtxKinds: []string{""}, Final: dispFinal, Oracle: dispOracle(prop)})
+			}
+		}
+		for _, reg := range []int{10, 14} {
+			// the remaining singletons: whichever is constructed last, the Build context is cancelled while it runs
+			out = append(out, &histCfg{Name: fmt.Sprintf("%s-hist/fault-r%d#1-cancel-build", prop, reg), Spec: dispSpec(true),
+				Faults: map[string]string{fmt.Sprintf("%d:1", reg): "cancel-build"}, Probes: dispProbes[:4], MaxScopes: 2, Depth: fd,
+				CtxKinds: []string{""}, Final: dispFinal, Oracle: dispOracle(prop)})
+		}
 		for _, reg := range []int{0, 1, 2, 3, 4, 5, 6, 7, 8, 9} {
 			for serial := 1; serial <= 3; serial++ {
-				for _, kind := range []string{"err", "panic:string", "err:disposed"} {
+				for _, kind := range []string{"err", "panic:string", "err:disposed", "cancel-build"} {
 					if (reg == 0 || reg == 1 || reg == 6) && serial > 1 {
 						continue // singletons are constructed once
+					}
+					if kind == "cancel-build" && serial > 1 {
+						continue // the context of BuildWithContext cancelled while this constructor runs during Build
 					}
 					if kind == "err:disposed" && reg != 5 && reg != 7 && reg != 2 {
 						continue // an error wrapping ANOTHER scope's disposed sentinel: initializers and one scoped service
